@@ -3,22 +3,31 @@ From Coq Require Import ZArith List Bool Arith.
 From AK Require Export Common.Sx Common.Err C07.Model.
 Import ListNotations.
 
-(* a parent commit as the harness builds it: build tags before finalize_build_tag_info, and the
-   major.minor of the version file saved in the commit (None: missing / unreadable) *)
+(* a commit of a repository that pins components, as the harness builds it: build tags before
+   finalize_build_tag_info, the major.minor of the version file saved in the commit (None: missing /
+   unreadable), and per component (position = index in [p_cis]) the pinned version *)
 Record rawcommit := mkRawC {
   raw_parents : list nat;
   raw_expl : bool;
   raw_tags : list rawtag;
   raw_saved : option (Z * Z);
-  raw_pin : option bn }.
+  raw_pins : list (option bn) }.
 (* RCommit.build_nums = get_builds_numbers(commit); _mk_rcommits in the model sorts again (idempotent) *)
 Definition finalize_commit (r : rawcommit) : commit :=
-  mkC (raw_parents r) (raw_expl r) (builds_numbers (raw_saved r) (raw_tags r)) (raw_pin r).
+  mkC (raw_parents r) (raw_expl r) (builds_numbers (raw_saved r) (raw_tags r)) (raw_pins r).
+
+(* one repository of the collection that pins components: the finished graphs of its components
+   (in the order of its component list), its commits, its branch heads in processing order *)
+Record pcase := mkP {
+  p_cis : list cinfo;
+  p_commits : list rawcommit;
+  p_heads : list (nat * nat) }.
 
 Inductive case :=
 | Order (repos : list nat) (deps : deps_t)
-| Bump (ci : cinfo) (ctags : list (option (Z * Z) * list rawtag))
-       (commits : list rawcommit) (heads : list (nat * nat)).
+(* one collection of repositories: [tags] = every repository's commits (saved version, raw tags);
+   [parents] = the repositories that pin components *)
+| Bump (tags : list (list (option (Z * Z) * list rawtag))) (parents : list pcase).
 
 Definition sx_bn (b : bn) : sx := let '(x, y, z) := b in SL [SZ x; SZ y; SZ z].
 
@@ -33,26 +42,34 @@ Definition printable (rcs : list (Z * rcommit)) (rb : rbuild) : list nat :=
       (filter (fun i => rc_expl (match zfind i rcs with Some r => r | None => no_rcommit end))
               (rev (rb_rcommits rb))).
 
-Definition sx_rbuild (rcs : list (Z * rcommit)) (p : Z * rbuild) : sx :=
+(* the bumps of an RBuild: bumps.get(component k) for every component of the repository *)
+Definition sx_rbuild (n : nat) (rcs : list (Z * rcommit)) (p : Z * rbuild) : sx :=
   let rb := snd p in
-  SL [sx_bn (rb_bn rb); SZ (rb_type rb); sx_list sx_nat (printable rcs rb); sx_option sx_bump (rb_bump rb)].
+  SL [sx_bn (rb_bn rb); SZ (rb_type rb); sx_list sx_nat (printable rcs rb);
+      sx_list (fun k => sx_option sx_bump (rb_bump k rb)) (seq 0 n)].
 
-Definition sx_report (r : report) : sx :=
-  SL [sx_list (fun br => SL [sx_nat (fst br); sx_list (sx_rbuild (r_rcs r)) (rev (snd br))]) (r_branches r);
-      sx_list (fun p => SL [sx_nat (fst p);
-                            sx_list (fun q => SL [sx_nat (fst q); sx_bn (snd q)]) (snd p)]) (r_included r)].
+(* [branches latest build first; per component: included_at of every RBuild (entries of this repository)] *)
+Definition sx_report (n : nat) (r : report) : sx :=
+  SL [sx_list (fun br => SL [sx_nat (fst br); sx_list (sx_rbuild n (r_rcs r)) (rev (snd br))]) (r_branches r);
+      sx_list (sx_list (fun p => SL [sx_nat (fst p);
+                                     sx_list (fun q => SL [sx_nat (fst q); sx_bn (snd q)]) (snd p)]))
+              (r_included r)].
+
+Fixpoint reports (ps : list pcase) : res (list sx) :=
+  match ps with
+  | [] => Ok []
+  | p :: r => bind (parent_report (p_cis p) (map finalize_commit (p_commits p)) (p_heads p))
+                   (fun rep => bind (reports r) (fun l => Ok (sx_report (length (p_cis p)) rep :: l)))
+  end.
 
 Definition run (c : case) : sx :=
   match c with
   | Order repos deps =>
       sx_res (fun l => sx_list (fun p => SL [sx_nat (fst p); sx_list sx_nat (snd p)]) l)
              (reports_order repos deps)
-  | Bump ci ctags commits heads =>
-      (* [report; included_at; get_builds_numbers of every component commit, of every parent commit] *)
-      sx_res (fun r => match sx_report r with
-                       | SL l => SL (l ++ [sx_list (fun p => sx_list sx_bn (builds_numbers (fst p) (snd p))) ctags;
-                                           sx_list (fun c => sx_list sx_bn (c_tags (finalize_commit c))) commits])
-                       | x => x
-                       end)
-             (parent_report ci (map finalize_commit commits) heads)
+  | Bump tags parents =>
+      (* [reports of the repositories that pin components; get_builds_numbers of every commit of every repository] *)
+      sx_res (fun l => SL [SL l;
+                           sx_list (sx_list (fun p => sx_list sx_bn (builds_numbers (fst p) (snd p)))) tags])
+             (reports parents)
   end.
